@@ -22,6 +22,7 @@ import (
 	"crypto/x509"
 	"fmt"
 	"net"
+	"sync/atomic"
 	"testing"
 	"time"
 
@@ -308,12 +309,20 @@ func c16CredPipe(c c16CredCase) (key, msg string) {
 	return "", ""
 }
 
+var c16CredTimeouts int32 // consecutive handshake cases that ended in a time-out
+
 func c16CredCheck(t vh.Fataler, rec *vh.Rec, c c16CredCase) {
 	classes := []string{"mut-" + c.Mut, "path-" + c.Path, fmt.Sprintf("secret-len-%d", len(c.Secret))}
 	key, msg := c16CredPure(c)
+	inconclusive := false
 	if key == "" {
 		var cl map[string]bool
-		key, msg, cl = c16Timed(func() (string, string, map[string]bool) {
+		if atomic.LoadInt32(&c16CredTimeouts) >= 3 && c.Path != "none" {
+			// handshakes keep timing out in this process: stop spending the budget on them
+			classes = append(classes, "handshake-skipped-after-repeated-timeouts")
+			c.Path = "none"
+		}
+		key, msg, cl = c16Timed(c16Stalled, func() (string, string, map[string]bool) {
 			var k, m string
 			switch c.Path {
 			case "udp":
@@ -326,14 +335,20 @@ func c16CredCheck(t vh.Fataler, rec *vh.Rec, c c16CredCase) {
 		for k := range cl {
 			classes = append(classes, k)
 		}
+		if cl["inconclusive-timeout"] || cl["inconclusive"] {
+			atomic.AddInt32(&c16CredTimeouts, 1)
+			inconclusive = true
+		} else if c.Path != "none" {
+			atomic.StoreInt32(&c16CredTimeouts, 0)
+		}
 	}
-	if key == "" && c.Path != "none" {
+	if key == "" && c.Path != "none" && !inconclusive {
 		classes = append(classes, "handshake-completed")
 		if !bytes.Equal(c.Secret, c.Other) {
 			classes = append(classes, "mismatch-refused")
 		}
 	}
-	rec.Case(c.Path != "none" && !bytes.Equal(c.Secret, c.Other), vh.Digest(c), c, classes...)
+	rec.Case(c.Path != "none" && !inconclusive && !bytes.Equal(c.Secret, c.Other), vh.Digest(c), c, classes...)
 	if key == "harness" {
 		t.Fatalf("harness problem: %s", msg)
 	}
